@@ -14,29 +14,11 @@ def nontrivial(p):
     return len(p) >= 3 and 0 < p[2] < p[0]
 
 
-def sig(case, d):
-    """Signature of a rejected case.  Verdict rejections of rules rendered with two or more non-first positive match
-    blocks (each ends with "if the scratch bit is clear, clear the all-blocks bit") get their own class: that is the
-    shape of the known scratch-bit finding; everything else keeps <flavour>:verdict:<action>:<hit|miss>."""
-    base = nf.signature_of(case.get("flavour", "-"), d)
-    if ":verdict:" in base:
-        s0, s1 = case["marks"]["s0"], case["marks"]["s1"]
-        finishes = 0
-        for r in case["prog"]["chains"].get("rule", []):
-            a = r["a"]
-            if a["k"] == "setmark" and a["clr"] == s0 and not a["xor"] and not a["or"] and len(r["m"]) == 1 \
-                    and r["m"][0]["k"] == "mark" and r["m"][0]["mask"] == s1 and r["m"][0]["val"] == []:
-                finishes += 1
-        if finishes >= 2 and base.endswith(":miss"):
-            return "%s:verdict:multi-positive-block:miss" % case.get("flavour", "-")
-    return base
-
-
 def run(ctx):
     nf.model_unit_check(ctx)
     n = 200 if ctx.quick else 4000
     info, _ = nf.check_cases(ctx, mode="c08", n=n, module=MODULE, cfg=CFG, diag_cfg=DIAG, chunks=4,
-                             timeout=900 if ctx.quick else 3000, nontrivial_fn=nontrivial, sig_fn=sig)
+                             timeout=900 if ctx.quick else 3000, nontrivial_fn=nontrivial)
     ctx.cov["rule"] = ("cases = seeded random proto.Rules that pass API validation (protocol / not-protocol by name and number, "
                        "0-3 positive and negated CIDRs per side incl. /0, /32, nested, mixed-family lists and the negated "
                        "catch-all, 0-40 ports/ranges per side crossing the 15-slot split, named-port sets, positive/negated "
